@@ -12,11 +12,19 @@ structure Chunk where
   bytes : Bytes
 deriving Repr
 
+/-- On a live connection a WRITE_FILE is complete only when its whole announced payload has arrived:
+    the handler, or the drain after a refusal, reads all of it before the loop goes on (`decode`
+    alone describes a stream that has ended, where a short payload is simply what there was). -/
+def decodeT (s : Bytes) : Decoded :=
+  match decode s with
+  | .req (.writeFile n pl) rest => if pl.length < n then .incomplete else .req (.writeFile n pl) rest
+  | d => d
+
 /-- consume every complete request at the head of the buffer -/
 def consume : Nat → Bytes → Nat → Bytes × Nat
   | 0, buf, n => (buf, n)
   | fuel + 1, buf, n =>
-    match decode buf with
+    match decodeT buf with
     | .req _ rest => consume fuel rest (n + 1)
     | _ => (buf, n)
 
